@@ -7,6 +7,7 @@
            per source node weight matrix by `+=` or indexed form -> sum of several sources -> wire producers + edge operator). *)
 From Coq Require Import List String ZArith QArith Qcanon Bool Arith.
 From PV Require Import Expr Net Edges EdgesProofs.
+From PV Require Import PyLib LabelGen LabelGenEquiv.
 Import ListNotations.
 Open Scope Qc_scope.
 
@@ -123,6 +124,20 @@ Print Assumptions C01_layout_disjoint.
 Theorem C01_layout_covers : forall (A : Type) (vars : list (A * nat)) idx, map fst (layout_from idx vars) = map fst vars.
 Proof. exact (fun A => @layout_covers A). Qed.
 Print Assumptions C01_layout_covers.
+
+(* names (E2): `requests` threads ComputeGraph._generate_unique_label — the Gallina text REGENERATED from the current
+   source by harness/py2v.py on every run — through its name table.  For ANY table and ANY sequence of requested labels
+   (names of the shape x_v1 included) the call never fails, and the labels handed out (other than the deliberately
+   shared "t") are pairwise distinct and differ from every name the table already held: two declared variables never
+   end up on one compute-graph node.  (Before fix D04 this was false: LabelGenEquiv no longer compiles on that text.) *)
+Theorem C01_names : forall ls names,
+  exists rs names', requests names ls = Some (rs, names') /\
+    List.length rs = List.length ls /\
+    incl (py_keys names) (py_keys names') /\
+    NoDup (filter not_time rs) /\
+    (forall r, In r (filter not_time rs) -> ~ In r (py_keys names)).
+Proof. exact unique_labels_distinct. Qed.
+Print Assumptions C01_names.
 
 (* non-vacuity: hierarchy depth 1, three nodes, a same-node producer, two parallel edges, two source nodes, an unconnected
    input with an overridden default — satisfies wf and every guard; v' = -1/8 + (3 + 3/4*1/2 - 9/16) + 2*4 = 171/16 *)
